@@ -22,7 +22,9 @@ RULE = ("catalogue models (12) and generated bounded models, generating paramete
 ASSUMPTIONS = ["cost comparison uses the independent reference cost (C06 oracle) with relative slack 1e-9 plus the trajectory tolerance",
                "truth clause: ||theta_hat - theta*|| <= 1e-6 (1 + ||theta*||), only for losses whose exact minimiser is the generating parameter vector"]
 ANCHORS = ["BaseLoss.fit", "BaseLoss.cost", "BaseLoss.sensitivity"]
-CASE_TIMEOUT = 600
+# a fit whose optimiser walks into a region where the sensitivity system is extremely stiff can integrate for hours (seen in the
+# tiny-parameter lane: the step leaves the 1e-8-wide box scale); the watchdog makes that case inconclusive, it is not a verdict
+CASE_TIMEOUT = {"default": 400, "tiny-parameter": 150}
 
 
 def plan(tier):
@@ -40,7 +42,8 @@ def plan(tier):
 def floors(tier):
     return {"nontrivial": 12, "counter:fits": 100, "counter:truth_clause_checks": 20, "counter:box_checks": 100, "counter:no_worse_checks": 80,
             "counter:active_bound_fits": 15, "class:Square": 8, "class:Normal": 5, "class:Gamma": 3,
-            "counter:zero_bound_fits": 20, "counter:half_open_box_fits": 20, "class:tiny-parameter": 8, "counter:sibling_calls": 30, "class:x0-ndarray-shared": 15, "counter:zero_bound_active": 5}
+            "counter:zero_bound_fits": 20, "counter:half_open_box_fits": 20, "class:tiny-parameter": 8, "counter:sibling_calls": 30, "class:x0-ndarray-shared": 15, "counter:zero_bound_active": 5,
+            "class:target_param": 8, "counter:refused_assignments": 15, "counter:other_model_first_calls": 10}
 
 
 def run_case(rng, idx, tier, lane, ctx):
@@ -94,7 +97,10 @@ def run_case(rng, idx, tier, lane, ctx):
         LC.choose_observation(rng, c, rs, kinds=["Square", "Square", "Normal", "Gamma", "Poisson"], allow_weights=False, exact_data_prob=1.0)
     c.target_param = None
     c.target_state = None
-    cls = list(c.classes) + [c.kind]
+    if not zero and lane != "tiny-parameter" and c.nP >= 2 and rng.random() < 0.35:
+        # only some of the parameters are fitted (target_param, in an order of the caller's choosing); the others stay at their values
+        c.target_param = rng.sample(c.params, rng.randint(1, c.nP - 1))
+    cls = list(c.classes) + [c.kind] + (["target_param"] if c.target_param else [])
     sample = LC.describe(c)
     tol_x = rs.tol(1e-10)
 
@@ -106,13 +112,18 @@ def run_case(rng, idx, tier, lane, ctx):
     if LC.share_caller_arrays(rng, c):
         cls.append("x0-ndarray-shared")
     try:
+        if rng.random() < 0.3:
+            LC.other_model_first(rng, c, counters)
         obj = LC.make_loss(c)
         if c.x0_as_array:
             counters["sibling_calls"] = LC.disturb_with_sibling(rng, c)
+        if rng.random() < 0.4:
+            # a (rightly) refused assignment to the model's parameters before the fits: it leaves nothing behind
+            sample["refused_assignment_before_fits"] = LC.refused_parameter_assignment(rng, c, counters)
     except Exception as e:
         return {"status": "violated", "sample": sample, "counters": counters, "classes": cls,
                 "witnesses": [{"what": "loss constructor raised on a valid case", "loss": c.kind, "error": short_exc(e), "tb": tb_tail(e)}]}
-    th = np.array(c.theta, dtype=float)
+    th = np.array(LC.free_theta(c, c.theta), dtype=float)
     lb = th * 0.3
     ub = th * 3.0
     if zero:
@@ -120,7 +131,7 @@ def run_case(rng, idx, tier, lane, ctx):
         cls.append("zero-bound")
 
     def refcost(theta):
-        r = LC.ref_solution(c, theta=list(theta), crosscheck=False, amplification=False)
+        r = LC.ref_solution(c, theta=LC.full_theta(c, list(theta)), crosscheck=False, amplification=False)
         if not r.ok:
             return None, None
         yhat = r.x[:, c.obs_idx]
@@ -142,7 +153,7 @@ def run_case(rng, idx, tier, lane, ctx):
         if rep < 2:
             box = (lb, ub)
         else:
-            k = rng.randrange(c.nP)
+            k = rng.randrange(len(th))
             lo2 = lb.copy()
             lo2[k] = th[k] * 1.3           # the box excludes the truth: the k-th lower bound becomes active
             box = (lo2, ub)
